@@ -24,7 +24,8 @@ FUNCTIONS = ["GeckoSwitch.async_turn_on/async_turn_off/turn_on/turn_off", "Gecko
              "GeckoAsyncUdpProtocol.get/queue_send", "GeckoUdpProtocolHandler.wait_for_response",
              "GeckoAsyncPartialStatusBlockProtocolHandler.async_handle", "GeckoAsyncSpa._async_on_partial_status_update"]
 BOUNDS = {"commands": "one command per path on an arbitrary current state for every device of every snapshot configuration; "
-                      "plus three-command sequences on pairs of pump demands that share a byte/word",
+                      "plus three-command sequences on pairs of pump demands that share a byte/word (quick: the first "
+                      "such pair, snapshot sibling bits; thorough: every ordered pair, both sibling backgrounds)",
           "state": "the bytes of the items the chosen command touches (device state, user demand, TempUnits, SetpointG, "
                    "EconActive) symbolic, the rest of the block from the shipped snapshot",
           "temperature argument": "three concrete temperatures per unit (min, max, a half-degree value); every decimal "
@@ -257,7 +258,7 @@ def pump_cmd(plat, c, l, base):
     return scenario
 
 
-def pump_sequence(plat, c, l, base):
+def pump_sequence(plat, c, l, base, all_pairs=False):
     """three commands in a row on demands that share a byte/word: a command that changes nothing, a change of a
     neighbouring demand, then a real change of the first one - the last write must carry the neighbour's
     *current* bits"""
@@ -271,7 +272,8 @@ def pump_sequence(plat, c, l, base):
         if not pairs:
             sx.check(True, "cmd.sequence.none")
             return
-        pairs = pairs[:1]
+        if not all_pairs:
+            pairs = pairs[:1]
         x, y = pairs[sx.choice("pair", len(pairs))]
         ax, ay = acc[x._user_demand["demand"]], acc[y._user_demand["demand"]]
         w.symbolise([ax.tag, ay.tag])
@@ -368,7 +370,13 @@ def units(tier):
         yield Unit(f"switch.async.{tag}", switch_cmd(plat, c, l, base, True), max_paths=20000)
         yield Unit(f"switch.sync.{tag}", switch_cmd(plat, c, l, base, False), max_paths=20000)
         yield Unit(f"pump.{tag}", pump_cmd(plat, c, l, base), max_paths=20000)
-        yield Unit(f"pump-sequence.{tag}", pump_sequence(plat, c, l, base), max_paths=50000,
-                   presets={"sibling_bits_all_ones": 0})
+        if tier == "quick":
+            yield Unit(f"pump-sequence.{tag}", pump_sequence(plat, c, l, base), max_paths=50000,
+                       presets={"sibling_bits_all_ones": 0})
+        else:
+            # every ordered pair of pumps sharing a field, on both backgrounds of the shared bytes
+            for ones in (0, 1):
+                yield Unit(f"pump-sequence.{tag}.ones{ones}", pump_sequence(plat, c, l, base, all_pairs=True),
+                           max_paths=200000, presets={"sibling_bits_all_ones": ones})
         yield Unit(f"heater.{tag}", heater_cmd(plat, c, l, base), max_paths=20000, ratio_floats=True)
         yield Unit(f"watercare.{tag}", watercare_cmd(plat, c, l, base))
